@@ -2,7 +2,7 @@ SPECIFICATION Spec
 CONSTANTS
   MaxN = 4
   MaxV = 3
-  MaxW = 3
+  MaxW = 2
   A = 8
   Scales = {1, 2, 3}
   Swapped = FALSE
